@@ -263,9 +263,10 @@ def identity_problems(gtirb, ir):
     for cont in [ir] + list(ir.modules):
         for key, ad in cont.aux_data.items():
             try:
-                data = ad.data
-            except Exception:   # noqa  (malformed type name / foreign bytes)
-                continue
+                with core.time_limit(2):
+                    data = ad.data
+            except (Exception, core.ImplTimeout):   # noqa  (malformed type
+                continue       # name / foreign or corrupted bytes)
             for leaf in walk(data):
                 if isinstance(leaf, gtirb.Node):
                     p = same(leaf, "AuxData entry")
@@ -402,6 +403,29 @@ class CheckedTie(core.BatchTie):
         self.cbs = {}
 
 
+def forward_entry_probe(ctx):
+    """known finding K5: an entry point in a module that comes later in
+    ir.modules (the preconditions of C01 / C17 do not exclude it)"""
+    import gtirb
+    ir = gtirb.IR()
+    m0 = gtirb.Module(name="m0", ir=ir)
+    m1 = gtirb.Module(name="m1", ir=ir)
+    s = gtirb.Section(name="s", module=m1)
+    bi = gtirb.ByteInterval(size=4, section=s)
+    cb = gtirb.CodeBlock(size=1, byte_interval=bi)
+    m0.entry_point = cb
+    raw = save(ir)
+    ctx.evaluations += 1
+    try:
+        load(gtirb, raw)
+    except (Exception, core.ImplTimeout) as e:   # noqa
+        ctx.report({"kind": "forward-reference"},
+                   {"file_hex": raw.hex(), "exception": type(e).__name__},
+                   "a saved self-contained IR whose module 0 has its entry "
+                   "point in module 1 is rejected by load: %s"
+                   % type(e).__name__)
+
+
 def run(ctx, props, n=None):
     ctx.rule = ("self-contained IRs built through the public API in random "
                 "construction orders (parent= arguments, collection adds, "
@@ -415,6 +439,8 @@ def run(ctx, props, n=None):
                 "non-trivial = distinct (modules, nodes/8, has edges, has "
                 "AuxData)")
     tie = CheckedTie(ctx, "msg", "msg", flush_at=40)
+    if ctx.prop in ("C01", "C17"):
+        forward_entry_probe(ctx)
     n = n or ctx.scale(400, 5000)
     for i in range(n):
         size = ctx.rng.choice([0.3, 1.0, 1.0, 2.5 if ctx.thorough() else 1.5])
